@@ -1,16 +1,21 @@
 package checks
 
 import (
+	"bufio"
 	"bytes"
 	"encoding/json"
 	"errors"
 	"fmt"
 	"io"
 	"math/rand"
+	"net"
 	"net/http"
 	"net/url"
+	"runtime"
 	"strconv"
 	"strings"
+	"sync"
+	"time"
 
 	"github.com/flamego/flamego"
 	"github.com/flamego/flamego/verifharness/core"
@@ -26,16 +31,25 @@ type rwOp struct {
 type rwCase struct {
 	Method   string  `json:"method"`
 	Flusher  bool    `json:"underlying_flusher"`
-	ReaderFr bool    `json:"underlying_reader_from,omitempty"` // the underlying writer also implements io.ReaderFrom (as net/http's does)
-	FailAt   int     `json:"fail_at,omitempty"`                // the k-th Write reaching the underlying writer misbehaves (0 = never)
-	FailMode string  `json:"fail_mode,omitempty"`              // short | err | shorterr | not-allowed (0, http.ErrBodyNotAllowed) | closed-pipe (0, io.ErrClosedPipe) | short-sentinel (n/2, io.ErrShortWrite)
-	Via      string  `json:"via"`                              // direct (NewResponseWriter) | handler (Context.ResponseWriter inside a request)
+	Full     bool    `json:"underlying_like_net_http,omitempty"` // the underlying writer has Flush, FlushError, Hijack and ReadFrom, as net/http's writers have
+	ReaderFr bool    `json:"underlying_reader_from,omitempty"`   // the underlying writer also implements io.ReaderFrom (as net/http's does)
+	FailAt   int     `json:"fail_at,omitempty"`                  // the k-th Write reaching the underlying writer misbehaves (0 = never)
+	FailMode string  `json:"fail_mode,omitempty"`                // short | err | shorterr | not-allowed (0, http.ErrBodyNotAllowed) | closed-pipe (0, io.ErrClosedPipe) | short-sentinel (n/2, io.ErrShortWrite)
+	Via      string  `json:"via"`                                // direct (NewResponseWriter) | handler (Context.ResponseWriter inside a request)
 	Ops      []rwOp  `json:"ops"`
 	Other    *rwCase `json:"interleaved_second_writer,omitempty"` // a second writer alive at the same time, its operations interleaved one by one (direct only)
 }
 
 func init() {
 	register(&Check{ID: "C13", Run: runC13, Replay: func(w *core.W, kind string, raw json.RawMessage) {
+		if kind == "two" {
+			var tc twoCase
+			if json.Unmarshal(raw, &tc) == nil {
+				w.Begin("two", &tc)
+				judgeTwo(w, &tc)
+			}
+			return
+		}
 		if kind == "huge" {
 			var hc hugeCase
 			if json.Unmarshal(raw, &hc) == nil {
@@ -85,6 +99,17 @@ func (s *rwSpy) Write(b []byte) (int, error) {
 	}
 	*s.log = append(*s.log, fmt.Sprintf("W%d", n))
 	return n, err
+}
+
+// rwSpyFull offers what net/http's own writers offer: Flush, FlushError (Go 1.20+), Hijack, ReadFrom. Whatever
+// optional methods the writer underneath has, the wrapper's state machine is the same.
+type rwSpyFull struct{ rwSpyRF }
+
+func (s rwSpyFull) Flush()            { *s.log = append(*s.log, "F") }
+func (s rwSpyFull) FlushError() error { *s.log = append(*s.log, "F"); return nil }
+func (s rwSpyFull) Hijack() (net.Conn, *bufio.ReadWriter, error) {
+	*s.log = append(*s.log, "hijacked")
+	return nil, nil, nil
 }
 
 type rwSpyF struct{ *rwSpy }
@@ -153,6 +178,10 @@ func (st *rwStepper) step() bool {
 		obs.rets = append(obs.rets, [2]int{int(n), e})
 	case "flush":
 		rw.Flush()
+	case "hijack":
+		if hj, ok := rw.(http.Hijacker); ok {
+			_, _, _ = hj.Hijack()
+		}
 	case "before":
 		id := st.nh
 		st.nh++
@@ -251,8 +280,13 @@ func rwVerdict(c *rwCase, obs *rwObs) string {
 			wi++
 		case "flush":
 			trigger(200)
-			if c.Flusher {
+			if c.Flusher || c.Full {
 				want = append(want, "F")
+			}
+		case "hijack":
+			// taking over the connection is not a response: no status, no size, nothing written
+			if c.Full {
+				want = append(want, "hijacked")
 			}
 		case "before":
 			hooks = append(hooks, nh)
@@ -338,6 +372,7 @@ func genRWCase(rng *rand.Rand) *rwCase {
 		Method:   []string{"GET", "HEAD", "POST", "HEAD", "PUT", "DELETE", "PATCH", "OPTIONS", "CONNECT", "TRACE", "GET"}[rng.Intn(11)],
 		Flusher:  rng.Intn(2) == 0,
 		ReaderFr: rng.Intn(2) == 0,
+		Full:     rng.Intn(4) == 0,
 		FailAt:   []int{0, 0, 1, 2, 3}[rng.Intn(5)],
 		FailMode: []string{"short", "err", "shorterr", "not-allowed", "closed-pipe", "short-sentinel"}[rng.Intn(6)],
 		Via:      "direct",
@@ -371,7 +406,11 @@ func genRWCase(rng *rand.Rand) *rwCase {
 				c.Ops = append(c.Ops, rwOp{Op: "write", N: rng.Intn(65)})
 			}
 		case 4:
-			c.Ops = append(c.Ops, rwOp{Op: "flush"})
+			if rng.Intn(4) == 0 {
+				c.Ops = append(c.Ops, rwOp{Op: "hijack"})
+			} else {
+				c.Ops = append(c.Ops, rwOp{Op: "flush"})
+			}
 		case 5, 6:
 			c.Ops = append(c.Ops, rwOp{Op: "before", Reg: rng.Intn(6) == 0})
 		default:
@@ -388,6 +427,8 @@ func judgeRW(w *core.W, c *rwCase) {
 	spy := &rwSpy{h: http.Header{}, log: &obs.log, failAt: c.FailAt, mode: c.FailMode}
 	var under http.ResponseWriter = spy
 	switch {
+	case c.Full:
+		under = rwSpyFull{rwSpyRF{spy}}
 	case c.Flusher && c.ReaderFr:
 		under = rwSpyRFF{rwSpyRF{spy}}
 	case c.ReaderFr:
@@ -408,7 +449,9 @@ func judgeRW(w *core.W, c *rwCase) {
 			oobs := &rwObs{}
 			ospy := &rwSpy{h: http.Header{}, log: &oobs.log, failAt: c.Other.FailAt, mode: c.Other.FailMode}
 			var ounder http.ResponseWriter = ospy
-			if c.Other.Flusher {
+			if c.Other.Full {
+				ounder = rwSpyFull{rwSpyRF{ospy}}
+			} else if c.Other.Flusher {
 				ounder = rwSpyF{ospy}
 			}
 			a := &rwStepper{c: c, rw: flamego.NewResponseWriter(c.Method, under), obs: obs}
@@ -524,8 +567,79 @@ func judgeHuge(w *core.W, c *hugeCase) {
 	w.Count("huge-responses")
 }
 
+// twoCase: a second goroutine of the same request uses the writer while the first one is still sending the
+// status (it sits in a before-function): whatever the second one sends must come after the status line.
+type twoCase struct {
+	Second string `json:"second_goroutine_does"` // write | flush | header
+	Code   int    `json:"first_status"`
+}
+
+type rwLockedSpy struct {
+	mu  sync.Mutex
+	h   http.Header
+	log []string
+}
+
+func (s *rwLockedSpy) add(e string)        { s.mu.Lock(); s.log = append(s.log, e); s.mu.Unlock() }
+func (s *rwLockedSpy) Header() http.Header { return s.h }
+func (s *rwLockedSpy) WriteHeader(c int)   { s.add(fmt.Sprintf("H%d", c)) }
+func (s *rwLockedSpy) Write(b []byte) (int, error) {
+	s.add(fmt.Sprintf("W%d", len(b)))
+	return len(b), nil
+}
+func (s *rwLockedSpy) Flush() { s.add("F") }
+
+func judgeTwo(w *core.W, c *twoCase) {
+	w.Eval()
+	spy := &rwLockedSpy{h: http.Header{}}
+	rw := flamego.NewResponseWriter("GET", spy)
+	inHook, about, done := make(chan struct{}), make(chan struct{}), make(chan struct{})
+	rw.Before(func(flamego.ResponseWriter) {
+		close(inHook)
+		<-about
+		// give the other goroutine every chance to get ahead, were it able to
+		for i := 0; i < 200; i++ {
+			runtime.Gosched()
+		}
+		time.Sleep(300 * time.Microsecond)
+	})
+	go func() {
+		defer close(done)
+		<-inHook
+		close(about)
+		switch c.Second {
+		case "write":
+			_, _ = rw.Write([]byte("late"))
+		case "flush":
+			rw.Flush()
+		default:
+			rw.WriteHeader(599)
+		}
+	}()
+	rw.WriteHeader(c.Code)
+	<-done
+	spy.mu.Lock()
+	log := append([]string(nil), spy.log...)
+	spy.mu.Unlock()
+	if len(log) == 0 || log[0] != fmt.Sprintf("H%d", c.Code) {
+		w.Violate("response-writer-two-goroutines", c, fmt.Sprintf("the underlying writer received %v: the status line of the first goroutine (%d) must come first", log, c.Code))
+		return
+	}
+	nH := 0
+	for _, e := range log {
+		if strings.HasPrefix(e, "H") {
+			nH++
+		}
+	}
+	if nH != 1 || rw.Status() != c.Code {
+		w.Violate("response-writer-two-goroutines", c, fmt.Sprintf("the underlying writer received %v, Status() = %d: one status line, the first one", log, rw.Status()))
+		return
+	}
+	w.Count("second-goroutine-during-commit")
+}
+
 func runC13(r *core.Run) {
-	r.Rule("random operation sequences (0-12) over WriteHeader(100..999), Write(0..64 bytes), Flush, Before(fn) (registered before and after the first write; one in six functions registers another function while it runs), reads; all nine methods (HEAD over-represented); underlying writer with/without Flusher; fault injection: the k-th underlying Write is short, fails, or both (also with the standard library's own error values, e.g. (0, http.ErrBodyNotAllowed)); four responses whose forwarded body passes 2^31 and 2^32 bytes; 1/5 of sequences run inside a handler on Context.ResponseWriter(). Oracle: 20-line state machine predicting every forwarded call, every Status/Size/Written reading and every Write result, plus predicates on the spy log (one status line, first; no body for HEAD; hooks once, reverse order, before the status line, seeing Written()==false). non-trivial = distinct sequences whose first status-sending op is not WriteHeader, or with >=2 hooks before it, or a second WriteHeader, or HEAD with a body write, or a fired fault")
+	r.Rule("random operation sequences (0-12) over WriteHeader(100..999), Write(0..64 bytes), Flush, Before(fn) (registered before and after the first write; one in six functions registers another function while it runs), reads; all nine methods (HEAD over-represented); underlying writer with/without Flusher; fault injection: the k-th underlying Write is short, fails, or both (also with the standard library's own error values, e.g. (0, http.ErrBodyNotAllowed)); four responses whose forwarded body passes 2^31 and 2^32 bytes; 600/20000 cases in which a second goroutine writes / flushes / sends a status while the first one is still inside a before-function; a quarter of the underlying writers offer Flush, FlushError, Hijack and ReadFrom as net/http's do, and Hijack is one of the operations; 1/5 of sequences run inside a handler on Context.ResponseWriter(). Oracle: 20-line state machine predicting every forwarded call, every Status/Size/Written reading and every Write result, plus predicates on the spy log (one status line, first; no body for HEAD; hooks once, reverse order, before the status line, seeing Written()==false). non-trivial = distinct sequences whose first status-sending op is not WriteHeader, or with >=2 hooks before it, or a second WriteHeader, or HEAD with a body write, or a fired fault")
 	r.Assume("before-functions only record, read accessors and do not re-enter Write/WriteHeader (that deadlocks on sync.Once by Go's documented semantics)")
 	c13Canaries(r)
 	n := r.N(300000, 20000000)
@@ -534,6 +648,12 @@ func runC13(r *core.Run) {
 		w.Begin("rw", c)
 		judgeRW(w, c)
 	})
+	r.Parallel("two-goroutines", r.N(600, 20000), func(w *core.W, rng *rand.Rand, i int) {
+		c := &twoCase{Second: []string{"write", "flush", "header"}[rng.Intn(3)], Code: 200 + rng.Intn(300)}
+		w.Begin("two", c)
+		judgeTwo(w, c)
+	})
+	r.GateCounter("second-goroutine-during-commit", 500)
 	if strconv.IntSize == 64 {
 		huge := []hugeCase{{1 << 20, 2049}, {1 << 20, 4098}, {(1 << 20) + 1, 2100}, {1 << 16, 32769}}
 		r.Parallel("huge", len(huge), func(w *core.W, _ *rand.Rand, i int) {
